@@ -12,7 +12,7 @@ FLOAT_TOL = 1e-8
 STATS = G.STATS
 KIND = {'curve': 'c', 'surface': 's', 'volume': 'v'}
 PARTIAL = [
-    "the tie between the list program A5.1 (`temp` triangle with in-place updates, edge writes) and the model's index-by-index output is the correspondence, not a Lean theorem",
+    "A5.1 as coded (POINT branch of helpers.knot_insertion: curves and the iso-curves of surfaces) is now MODELLED literally (knotInsertionA51, Model/InsertA51.lean: allocation of ctrlpts_new / temp, the two copy loops, the temp initialisation, the insertion loop with its sequential in-place sweep and the two edge writes per pass, the final loop; run against the real helper called with explicit num / s / span by the streams ins-a51 / ins-pt, incl. s > 0, num > 1, num = 0, first / last span, unclamped knot vectors, s / span / u not belonging together) and PROVED equal, slot by slot, to the index-by-index model knotInsertion for every knot function, polygon, parameter, num >= 0, s and span k with p <= k and num + s <= p (knot_insertion_as_coded_eq_model; nothing assumed about the knots, alpha denominators may vanish), so shape preservation is a theorem about the loops as coded (insert_as_coded_preserves_curve_point, insert_as_coded_preserves_curve, insert_as_coded_net_length, insert_as_coded_surface_nets_eq). NOT covered: calls outside that guard (k < degree or num + s > degree: reachable only through explicit keyword arguments or check=False), where Python's negative indices wrap around and the transcription does not follow; the object-level theorems are still stated with knotInsertion (equal under the guard, which holds for every admissible request: span found by the search, num + s <= degree)",
     "object level (Props/C04.lean, insertKnot_preserves_surface / _volume, insert_call_sequence_preserves_surface / _volume): one insert_knot call with any subset of the directions of a surface or a volume, and any sequence of such calls, completes and preserves well-formedness, the domain and every evaluated point at every parameter of the domain - under the explicit hypothesis that every requested direction is admissible (DirReqOk: parameter in the half-open domain [U_p, U_n), the multiplicity s computed by find_multiplicity is a run ending at the span, r + s <= p; derivable from tolerance separation by insert_request_admissible); a direction rejected by the multiplicity check leaves the earlier directions applied and the points unchanged (insertKnot_partial_application_*). NOT covered by a theorem: a parameter outside the half-open domain of its direction (e.g. u = U_n), check=False with r + s > p, and curve objects at Shape level (curves are proved at helper level: insert_sequence_preserves - points unchanged on the closed domain AND the final state CurveWF with both domain ends unchanged; insert_net_length: r more points, each of the same dimension)",
     "rational objects: the theorems are about the homogeneous net (coordinatewise, weight coordinate included); the projection is C01/C09's",
     "list-of-rows branch of helpers.knot_insertion (volumes): MODELLED (knotInsertionRows, index form like the point branch; gather / scatter volRows / volUnrows / mapVolRows with the index expressions of operations.insert_knot; streams ins-rows / ins-vol-rows against the real helper called with rows and against operations.insert_knot) and PROVED equal to the per-iso-curve model (knotInsertionRows_isocurve: no hypothesis; knotInsertionRows_is_transposed_knotInsertion; mapVolRows_insert_eq_mapVol; insertKnotVolRows_is_insertKnotDir), so the volume theorems are about what the rows branch computes. Not covered: ragged rows (rows of different lengths) beyond the iso-curve statement; the tie between the in-place loops on rows (temp[i][idx][:] = ...) and the index form is the correspondence",
@@ -194,7 +194,77 @@ def gen(rng, tier):
         G.count('rows_vol_ins', (len(reqs), over))
         line = "rowsvol v %s %s" % (S.args(d), " ".join("I %d %s %d 1" % (a, fr(b), c_) for a, b, c_ in reqs))
         out.append(Case('ins-vol-rows', line, dict(shape=d, reqs=[[a, b, c_] for a, b, c_ in reqs])))
+    # A5.1 AS CODED: the real helpers.knot_insertion (point branch) called with explicit num / s / span against the
+    # LITERAL transcription `knotInsertionA51` (op insa51) and against the index-by-index model (op inspt):
+    # prior multiplicities s > 0, num > 1, num = 0, the first and the last span, unclamped knot vectors; and
+    # "free" calls in which s / span / u are NOT the ones belonging to u (the helper computes anyway: pure
+    # index arithmetic, any s with num + s <= p, any non-empty span k)
+    for _ in range(150 if tier == 'quick' else 2500):
+        d = S.rand_curve(rng, maxp=5, max_interior=4, clamped=rng.random() < .65, max_mult=rng.choice([None, None, 2, 1]))
+        p, kv, n_ = d['p'], d['kv'], d['n']
+        spans = [k for k in range(p, n_) if kv[k] < kv[k + 1]]
+        mode = rng.random()
+        if mode < .7:
+            interior = sorted(set(x for x in kv[p:n_] if kv[p] <= x < kv[n_] and RO.mult(kv, x) < p))
+            r_ = rng.random()
+            if interior and r_ < .45:
+                u = rng.choice(interior)
+            elif r_ < .6:
+                k0 = rng.choice([spans[0], spans[-1]])
+                u = kv[k0] + (kv[k0 + 1] - kv[k0]) * F(rng.randint(1, 99), 100)
+            else:
+                u = kv[p] + (kv[n_] - kv[p]) * F(rng.randint(1, 99), 100)
+            s = RO.mult(kv, u)
+            if s > p:
+                continue
+            k = RO.span(kv, p, n_, u)
+            r = rng.choice([0] + list(range(1, p - s + 1)) * 3) if p > s else 0
+            genuine = True
+        else:
+            k = rng.choice(spans + [spans[0], spans[-1]])
+            r = rng.randint(0, p)
+            s = rng.randint(0, p - r)
+            u = rng.choice([kv[k], kv[k] + (kv[k + 1] - kv[k]) * F(rng.randint(1, 99), 100), kv[0] - 1, kv[-1] + F(1, 3),
+                            kv[p] + (kv[n_] - kv[p]) * F(rng.randint(0, 100), 100)])
+            genuine = False
+        G.count('a51', (p, s, r, 'first' if k == p else ('last' if k == n_ - 1 else 'mid'), 'genuine' if genuine else 'free'))
+        G.count('a51_clamped', kv[0] == kv[p])
+        tail = "%d %s %s %s %d %d %d" % (p, show_list(kv), show_pts(d['P']), fr(u), r, s, k)
+        data = dict(shape=d, u=u, r=r, s=s, k=k, genuine=genuine)
+        out.append(Case('ins-a51', "insa51 " + tail, data))
+        out.append(Case('ins-pt', "inspt " + tail, data))
     return out
+
+
+def _a51_call(c):
+    from geomdl import helpers
+    from core import qpts
+    x = c.data
+    d = x['shape']
+    Q = helpers.knot_insertion(d['p'], qs(d['kv']), qpts(d['P']), q(x['u']), num=x['r'], s=x['s'], span=x['k'])
+    return RO.unq([Q])[0]
+
+
+def _oracle_a51(c):
+    """genuine calls (s, span those of u): r more points, the curve is unchanged (independent Cox-de Boor evaluation)"""
+    x = c.data
+    d = x['shape']
+    try:
+        Q = _a51_call(c)
+    except Exception as e:
+        return "knot_insertion raised %s: %s" % (type(e).__name__, e)
+    if len(Q) != d['n'] + x['r']:
+        return "knot_insertion returned %d points, expected %d" % (len(Q), d['n'] + x['r'])
+    if not x['genuine']:
+        return None
+    if x['r'] == 0:
+        return None if Q == d['P'] else "num=0 changed the control points"
+    after = dict(d, kv=sorted(d['kv'] + [x['u']] * x['r']), n=d['n'] + x['r'], P=Q)
+    for (t,) in itertools.product(*probe_params(d, [[x['u']]])):
+        a = S.eval_ref(d, [t]); b = S.eval_ref(after, [t])
+        if a != b:
+            return "point at %s moved from %s to %s" % (fr(t), show_list(a), show_list(b))
+    return None
 
 
 def _apply(o, d, reqs, method):
@@ -234,6 +304,8 @@ def _vol_rows(c):
 
 
 def impl(c):
+    if c.kind in ('ins-a51', 'ins-pt'):
+        return show_pts(_a51_call(c))
     if c.kind == 'ins-rows':
         from core import show_pts2
         return show_pts2(_rows_call(c))
@@ -279,6 +351,8 @@ def _oracle_rows(c):
 
 
 def oracle(c):
+    if c.kind in ('ins-a51', 'ins-pt'):
+        return _oracle_a51(c)
     if c.kind == 'ins-rows':
         return _oracle_rows(c)
     if c.kind == 'ins-vol-rows':
